@@ -42,6 +42,27 @@ def outShardOk (sh : Shard) : Bool :=
   sh.repos.all (fun r => !r.tomb) &&
   (List.range sh.repos.length).all (hasDocs sh)
 
+/-! ### the hypotheses of the theorems, as an executable check on real input shards -/
+
+def nodupS : List String → Bool
+  | [] => true
+  | x :: xs => !xs.contains x && nodupS xs
+
+/-- the tables a stored document points into are sane: distinct branch names (at most 64), the mask only uses existing
+    branches, distinct sub-repository paths, valid sections, and language detection is idempotent on it -/
+def docOkB (langs : List String) (r : RepoMeta) (d : Doc) : Bool :=
+  nodupS r.branches && decide (r.branches.length ≤ 64) && decide (d.mask < 2 ^ r.branches.length) &&
+  nodupS r.subPaths && decide (d.sub < r.subPaths.length) && secsOk (contentLen d.content) d.secs &&
+  (langs.getD d.lang "" != "" || d.redetect == "")
+
+/-- input shard: every document points to a repository, documents of live repositories are `docOkB`, documents are
+    grouped by repository -/
+def wfB (sh : Shard) : Bool :=
+  sh.docs.all (fun d => match sh.repos[d.repo]? with
+    | some r => r.tomb || docOkB sh.langs r d
+    | none => false) &&
+  nondecreasing (sh.docs.map (·.repo))
+
 /-- merge: the output shows exactly the live documents and repositories of the inputs (up to order) -/
 def checkMerge (inputs : List Shard) (out : Shard) : Option String :=
   if !outShardOk out then some "out-malformed"
